@@ -66,9 +66,20 @@ def _worker_timeout():
     os._exit(3)
 
 
+def _die_with_parent():
+    """Linux: deliver SIGKILL to this worker when the process that forked it goes away."""
+    try:
+        import ctypes
+        import signal
+        ctypes.CDLL(None).prctl(1, int(signal.SIGKILL))      # PR_SET_PDEATHSIG
+    except Exception:
+        pass
+
+
 def _worker_entry(batch, deadline, per_batch_timeout):
     global _CUR_INDEX
     import threading
+    _die_with_parent()
     wd = threading.Timer(per_batch_timeout, _worker_timeout)
     wd.daemon = True
     wd.start()
